@@ -1435,6 +1435,15 @@ class _Ctx:
                     return r
         # repo class -> constructor
         if short in ev.prog.class_index and (name.startswith("genjax") or "." not in name):
+            # Cls(a, field=b) is Cls(a, b): keywords naming the next dataclass fields become positional
+            cis_ = ev.prog.class_index[short]
+            if kwargs and "**" not in kwargs and len(cis_) == 1 and cis_[0].fields and not any(is_t(x, "star") for x in args):
+                args, kwargs = list(args), dict(kwargs)
+                for fld in cis_[0].fields[len(args):]:
+                    if fld in kwargs:
+                        args.append(kwargs.pop(fld))
+                    else:
+                        break
             return ("ctor", short, tuple(args), tuple(sorted(kwargs.items())))
         if name in _TREE_MAP or (short == "tree_map"):
             return self.tree_map(args, kwargs)
